@@ -48,6 +48,11 @@ fn oracle() -> Oracle {
             (Some(a), Some(b)) if b > a => Some(b - 1),
             _ => None,
         };
+        // all calls made during this next()
+        let calls_of_item = match (o.calls_after.get(k), o.calls_after.get(k + 1)) {
+            (Some(a), Some(b)) => *a..*b,
+            _ => 0..0,
+        };
         // every returned row attributes to each signal only what the driver reported for it in that call
         if let (ObsItem::Row(row), Some(ci)) = (item, call_idx) {
             if let Some(ans) = o.log.get(ci).and_then(|c| c.answer.as_ref()) {
@@ -70,7 +75,7 @@ fn oracle() -> Oracle {
                 Some(ri) => item_mismatch(ri, item, proj, None, None).and_then(|m| fail(format!("rows before the fault: item {k}: {m}"))),
                 None => None,
             },
-            Some(d) if Some(d) == call_idx => {
+            Some(d) if calls_of_item.contains(&d) => {
                 // this item's call is the deviating one
                 match &seen.script[d] {
                     Step::Fault(id) => {
@@ -78,6 +83,9 @@ fn oracle() -> Oracle {
                         st.witness(if rw { "fault_at_an_output_reading_call" } else { "fault_at_a_write_only_call" });
                         if *item != ObsItem::DriverErr(*id) {
                             return fail(format!("fault: the call for item {k} failed with error #{id}; the item is {}", item.brief()));
+                        }
+                        if calls_of_item.len() != 1 {
+                            return fail(format!("fault: after the failed call the same next() made {} further driver calls", calls_of_item.len() - 1));
                         }
                         None
                     }
